@@ -451,7 +451,7 @@ func rewriteSpec(s string) (string, error) {
 	return out, nil
 }
 
-var callsRe = regexp.MustCompile(`(^|[^\w.])(calls|lastargn|lastarg|lastresn|lastres|same|raw|fst|snd)\(`)
+var callsRe = regexp.MustCompile(`(^|[^\w.])(calls|lastargn|lastarg|lastresn|lastres|same|raw|fst|snd|le64)\(`)
 var istypeRe = regexp.MustCompile(`(^|[^\w.])(istype|ptr)\[`)
 var oldRe = regexp.MustCompile(`(^|[^\w.])old\(`)
 var freshRe = regexp.MustCompile(`(^|[^\w.])fresh\(`)
